@@ -352,8 +352,43 @@ type point struct {
 	Avail   []string // non-fresh choices that were available there (distinct byte strings)
 }
 
+// rotKS is what the encrypting store wrapper sees of the key store: the symmetric storage keys of
+// a client as the real key stores answer them (GetClientIDSymmetricKey: the current key;
+// GetClientIDSymmetricKeys: current key first, then the rotated ones), with rotation as an
+// operation of the history. Every answer is a fresh copy (callers wipe what they get).
+type rotKS struct {
+	extra map[string][][]byte // newest first
+	n     int
+}
+
+func (k *rotKS) rotate(id []byte) {
+	k.n++
+	h := sha256.Sum256([]byte(fmt.Sprintf("c10 rotated key %d of %x", k.n, id)))
+	k.extra[string(id)] = append([][]byte{h[:]}, k.extra[string(id)]...)
+}
+
+func (k *rotKS) GetClientIDSymmetricKey(id []byte) ([]byte, error) {
+	if e := k.extra[string(id)]; len(e) > 0 {
+		return append([]byte{}, e[0]...), nil
+	}
+	return world.KS.GetClientIDSymmetricKey(id)
+}
+
+func (k *rotKS) GetClientIDSymmetricKeys(id []byte) ([][]byte, error) {
+	var out [][]byte
+	for _, e := range k.extra[string(id)] {
+		out = append(out, append([]byte{}, e...))
+	}
+	old, err := world.KS.GetClientIDSymmetricKeys(id)
+	if err != nil {
+		return nil, err
+	}
+	return append(out, old...), nil
+}
+
 type exec struct {
 	kind string
+	keys *rotKS // nil for the stacks without the encrypting wrapper
 	typ  string
 	slot *boltSlot
 	raw  common.TokenStorage
@@ -459,7 +494,14 @@ func newExec(kind, typ, seed string) *exec {
 	}
 	inner := x.raw
 	if strings.HasSuffix(kind, "+enc") {
-		inner = storage.WrapStorageWithEncryption(inner, encTok)
+		// the encrypting wrapper of this execution reads its keys through a view that the history can
+		// rotate (rotKS): current key first, rotated keys after it, the world's keys last
+		x.keys = &rotKS{extra: map[string][][]byte{}}
+		enc, err := storage.NewSCellEncryptor(x.keys)
+		if err != nil {
+			ev.Fatalf("scell encryptor: %v", err)
+		}
+		inner = storage.WrapStorageWithEncryption(inner, enc)
 	}
 	x.top = &tap{inner: inner, x: x}
 	var err error
